@@ -35,7 +35,7 @@ def main():
     results = {}
     for arg in sys.argv[1:]:
         label, d = arg.split("=")
-        prop = label.split("-")[0]
+        prop = re.match(r"C\d+", label).group(0)
         t0 = time.time()
         sh("git checkout -- . && git clean -fdq")
         patch, demo = os.path.join(d, "patch.diff"), os.path.join(d, "demo.diff")
